@@ -14,7 +14,7 @@ def showRows (r : List (List Rat)) : String :=
 
 def showErr : Err → String
   | .shape => "shape" | .window => "window" | .short => "short" | .unsorted => "unsorted"
-  | .below => "below" | .above => "above"
+  | .below => "below" | .above => "above" | .solver => "solver"
 
 def showSF (x : SF) : String := s!"{showBool x.neg} {showRat x.mag}"
 
@@ -75,9 +75,7 @@ def handle : List String → Option String
   | ["c20", "nakspline", dim, xs, rows, xnew] => do
     let dim ← dim.toNat?
     let xs ← parseRats? xs; let rows ← parseRows? rows; let xnew ← parseRats? xnew
-    match nakSpline xs rows dim xnew with
-    | .error e => pure ("err " ++ showErr e)
-    | .ok (c, r) => pure s!"ok {showBool c} {showRows r}"
+    pure (showExc (nakSpline xs rows dim xnew))
   | ["c20", "normsq", rows] => do
     let rows ← parseRows? rows
     pure (showRats (rows.map normSq))
@@ -115,7 +113,9 @@ def handle : List String → Option String
     let xs ← parseRats? xs; let ys ← parseRats? ys
     match linreg xs ys rej f it with
     | none => pure "degenerate"
-    | some (fit, kx, _) => pure s!"ok {showRat fit.icpt} {showRat fit.slope} {showRats kx}"
+    | some (fit, kx, ky) =>
+      let st := fitStats fit kx ky
+      pure s!"ok {showRat fit.icpt} {showRat fit.slope} {showRats kx} {showRat st.rms2} {showRat st.rSquare} {showRat st.slopeVar} {showRat st.icptVar}"
   | _ => none
 
 end Driver.C20
